@@ -11,6 +11,9 @@ var log10RootLookup []int
 // operation can be slow.
 func Log10RootFunction(baseline int) func(estimatedLimit int) int {
 	return func(estimatedLimit int) int {
+		if estimatedLimit < 0 {
+			estimatedLimit = 0
+		}
 		if estimatedLimit < len(log10RootLookup) {
 			return baseline + log10RootLookup[estimatedLimit]
 		}
@@ -23,6 +26,10 @@ func Log10RootFunction(baseline int) func(estimatedLimit int) int {
 // operation can be slow.
 func Log10RootFloatFunction(baseline float64) func(estimatedLimit float64) float64 {
 	return func(estimatedLimit float64) float64 {
+		if !(estimatedLimit >= 0) {
+			// negative or NaN
+			estimatedLimit = 0
+		}
 		if int(estimatedLimit) < len(log10RootLookup) {
 			return baseline + float64(log10RootLookup[int(estimatedLimit)])
 		}
